@@ -33,6 +33,10 @@ type front struct {
 	addr    string
 	backend string
 	tlsCfg  *tls.Config
+	// socks: the front is itself a SOCKS5 proxy (socksfront.go); backend is unused
+	socks  bool
+	onAuth func(string) // socks: the credentials an unarmed handshake carried
+	dead   string       // socks: a target whose exchange is dropped
 
 	mu      sync.Mutex
 	fault   string
@@ -109,7 +113,7 @@ type closeWriter interface{ CloseWrite() error }
 
 func (f *front) serve(raw net.Conn) {
 	f.mu.Lock()
-	fault := f.fault
+	fault, socks := f.fault, f.socks
 	if fault != "" {
 		f.hits++
 	}
@@ -132,6 +136,10 @@ func (f *front) serve(raw net.Conn) {
 		return
 	}
 	raw.SetDeadline(time.Now().Add(20 * time.Second))
+	if socks {
+		f.serveSocks(raw, fault)
+		return
+	}
 	br := bufio.NewReader(raw)
 	var conn net.Conn = &peekConn{raw, br}
 	if b, err := br.Peek(1); err != nil {
